@@ -511,7 +511,13 @@ func ruleValidatorFacts(c *Check, p *Prog) {
 		}
 	}
 	// time clause is a disjunction: height <= 1 or not lastBlockTime.After(headerTime)
-	ev := p.Func(mgrM("execValidate"))
+	// the validator: the repo function Manager.Validate delegates to
+	var ev *ssa.Function
+	for _, cal := range staticCalleesOf(p, mv) {
+		if corrResult(cal) >= 0 && fnPkg(cal) != nil && fnPkg(cal).Pkg.Path() == rootPath+"/block" {
+			ev = cal
+		}
+	}
 	if ev == nil {
 		// the validator: callee of Manager.Validate in the block package
 		c.Unk(rule, "Manager.Validate ⟂ time", fn, pos, "anchor lost: validator function")
@@ -650,11 +656,23 @@ func ruleNextState(c *Check, p *Prog) {
 		}
 	}
 	// the applier passes the executor's root for this header and this block's transactions
-	ap := p.Func(mgrM("execApplyBlock"))
+	var ap *ssa.Function
+	if aps := funcsCalling(p, rootPath+"/block", func(n string) bool { return n == execM("ExecuteTxs") }); len(aps) == 1 {
+		ap = aps[0]
+	}
 	if ap == nil {
 		c.Unk(rule, "applier", "", "", "anchor lost: the function calling Executor.ExecuteTxs")
 		return
 	}
+	pByType := func(suffix string) string {
+		for _, prm := range ap.Params {
+			if strings.HasSuffix(prm.Type().String(), suffix) {
+				return prm.Name()
+			}
+		}
+		return "?"
+	}
+	pState, pHdr, pData := pByType("types.State"), pByType("types.Header"), pByType("types.Data")
 	g := BuildECFG(p, ap, ExpandOpts{MaxDepth: 0})
 	c.NoteGraph(g)
 	for _, n := range g.Select(IsCall(typesM("State", "NextState"))) {
@@ -664,9 +682,9 @@ func ruleNextState(c *Check, p *Prog) {
 		if okRoot {
 			ex := rootArg.Args[0]
 			// ExecuteTxs(exec, ctx, txs, height, time, prevRoot)
-			okH := strings.Contains(ex.Args[3].String(), "types.Header).Height(") && strings.Contains(ex.Args[3].String(), ap.Params[3].Name())
-			okP := strings.HasSuffix(ex.Args[5].String(), ".AppHash") && strings.Contains(ex.Args[5].String(), ap.Params[2].Name())
-			if okH && okP && hdrArg.String() == ap.Params[3].Name() {
+			okH := strings.Contains(ex.Args[3].String(), "types.Header).Height(") && strings.Contains(ex.Args[3].String(), pHdr)
+			okP := strings.HasSuffix(ex.Args[5].String(), ".AppHash") && strings.Contains(ex.Args[5].String(), pState)
+			if okH && okP && hdrArg.String() == pHdr {
 				c.OK(rule, "applier ⟂ NextState(header, ExecuteTxs root)", fnName(ap), p.InstrPos(n.In), "state root comes from ExecuteTxs(txs, header.Height(), header.Time(), lastState.AppHash)", true)
 				continue
 			}
@@ -686,7 +704,7 @@ func ruleNextState(c *Check, p *Prog) {
 				continue
 			}
 			val := TermOf(st.Val, &Ctx{Fn: ap}).unconv()
-			if val.Op == "index" && val.Args[1].V == ia.Index && val.Args[0].String() == ap.Params[4].Name()+".Txs" {
+			if val.Op == "index" && val.Args[1].V == ia.Index && val.Args[0].String() == pData+".Txs" {
 				okCopy = true
 			}
 		}
